@@ -242,6 +242,45 @@ func registerRLP(e *Engine) {
 				return iface{}
 			}
 		}
+		// an encoded value followed by further bytes: DecodeBytes rejects
+		// trailing input (ErrMoreThanOneValue); nothing at all: unexpected EOF
+		if len(b) > 1 {
+			if _, ok := b[0].(rlpBox); ok {
+				return makeError(fr, "rlp: input contains more than one value")
+			}
+		}
+		if len(b) == 0 {
+			return makeError(fr, "unexpected EOF")
+		}
 		panic(abortPath{"unsupported", "rlp.DecodeBytes of raw (non-boxed) bytes"})
+	})
+	// rlp.Decode(r, val) reads ONE value from the reader and leaves the rest
+	// unread (unlike DecodeBytes it does not reject trailing input).  Modelled
+	// for *bytes.Reader over boxed bytes.
+	e.Register(pkg+".Decode", func(fr *frame, a []value) value {
+		r := a[0].(iface)
+		it := a[1].(iface)
+		rp, ok := r.v.(*value)
+		if !ok || rp == nil || r.t == nil || r.t.String() != "*bytes.Reader" {
+			panic(abortPath{"unsupported", fmt.Sprintf("rlp.Decode from a %v", r.t)})
+		}
+		st := (*rp).(structure)
+		s, _ := st[0].([]value)
+		pos := int(asInt64(st[1]))
+		if pos >= len(s) {
+			return makeError(fr, "EOF")
+		}
+		box, isBox := s[pos].(rlpBox)
+		if !isBox {
+			panic(abortPath{"unsupported", "rlp.Decode of raw (non-boxed) bytes"})
+		}
+		pt, ok := it.t.Underlying().(*types.Pointer)
+		if !ok {
+			return makeError(fr, "rlp: decode target must be a pointer")
+		}
+		dst := derefPtr(it.v, "rlp.Decode target")
+		rlpAssign(pt.Elem(), dst, box.T, box.V, false)
+		st[1] = int64(pos + 1)
+		return iface{}
 	})
 }
